@@ -204,3 +204,43 @@ Theorem C01_binary_write_delivers_image : forall t v room, wt t v = true -> rty_
   (o = (ST_ERR, ERR_IO) /\ exists k, room = Some k /\ (k < length (encode t v))%nat /\ got = firstn k (encode t v)).
 Proof. exact binary_write_delivers. Qed.
 Print Assumptions C01_binary_write_delivers_image.
+
+(* RESTART on a left-over shared-memory segment. A run of the server calls cache.NewSHM(key, hugetlb, isCreate); what
+   it finds under the key is nothing or the segment (allocation, Version and Size stamps, Number, Loaded) a previous
+   run left - of this or of the other build configuration, or of a C pttbbs with other constants.
+   (1) a segment that already exists is never written by NewSHM, whatever isCreate and the stamps are: Number, Loaded
+       and the stamps other attached processes rely on keep their values;
+   (2) it is accepted exactly when its stamps are this configuration's Version and SHM_RAW_SZ (and it is large
+       enough), with the codes shmget-refused / ErrShmVersion / ErrShmSize in this order otherwise;
+   (3) SHM_RAW_SZ differs between the two configurations, so the segment of the other configuration is refused:
+       this binary never maps its SHMRaw over fields that live at the other configuration's offsets;
+   (4) a first start creates and stamps the segment and is accepted; attaching without a segment is refused. *)
+Theorem C01_restart_verifies_never_stamps :
+  (forall c al isCreate g, snd (newshm c al isCreate (Some g)) = Some g) /\
+  (forall c al isCreate g,
+     (fst (newshm c al isCreate (Some g)) = (ST_OK, 0) <->
+        sg_ver g = shm_version c /\ sg_size g = shm_raw_sz c /\ shm_size c al <= sg_alloc g) /\
+     fst (newshm c al isCreate (Some g)) =
+       if sg_alloc g <? shm_size c al then (ST_ERR, ERR_SHMGET)
+       else if negb (sg_ver g =? shm_version c) then (ST_ERR, ERR_SHM_VERSION)
+       else if negb (sg_size g =? shm_raw_sz c) then (ST_ERR, ERR_SHM_SIZE) else (ST_OK, 0)) /\
+  (shm_raw_sz Default <> shm_raw_sz Docker /\
+   forall c c' al isCreate g, c <> c' -> sg_size g = shm_raw_sz c' -> fst (newshm c al isCreate (Some g)) <> (ST_OK, 0)) /\
+  (forall c al, newshm c al true None = ((ST_OK, 0), Some (fresh_seg c al)) /\
+                newshm c al false None = ((ST_ERR, ERR_SHMGET), None)).
+Proof. exact restart_verifies_never_stamps. Qed.
+Print Assumptions C01_restart_verifies_never_stamps.
+
+(* over ANY history of runs (restarts with isCreate, attaches, each accepted run working on Number/Loaded before it
+   exits): the allocation and the Version/Size stamps of an existing segment never change; and a segment that is not
+   this configuration's (other Version, other Size stamp, or too small) is refused by every run and is, after the
+   whole history, exactly the segment it was - what each run observes right after NewSHM included *)
+Theorem C01_restart_history_stamps_fixed :
+  (forall c al rs g, exists g', snd (shm_history c al rs (Some g)) = Some g' /\
+     sg_alloc g' = sg_alloc g /\ sg_ver g' = sg_ver g /\ sg_size g' = sg_size g) /\
+  (forall c al rs g,
+     sg_ver g <> shm_version c \/ sg_size g <> shm_raw_sz c \/ sg_alloc g < shm_size c al ->
+     snd (shm_history c al rs (Some g)) = Some g /\
+     Forall (fun o => shm_accepted (fst o) = false /\ snd o = Some g) (fst (shm_history c al rs (Some g)))).
+Proof. exact restart_history_stamps_fixed. Qed.
+Print Assumptions C01_restart_history_stamps_fixed.
